@@ -202,16 +202,16 @@ def TrkDsp.start (t : TrkDsp) (sys : Nat) : TrkDsp × Option Handle :=
 def setupK (s : St) (k : Kind) (sys : Nat) : St :=
   match k with
   | .plain => s
-  | .sysEv => { s with trkSys := s.trkSys.start sys }
-  | .entReact => { s with trkEnt := s.trkEnt.start sys }
-  | .dspReact =>
+  | .sysEv _ => { s with trkSys := s.trkSys.start sys }
+  | .entReact _ _ => { s with trkEnt := s.trkEnt.start sys }
+  | .dspReact _ =>
     let (t, old) := s.trkDsp.start sys
     let s := { s with trkDsp := t }
     match old with
     | some h => dropHandle s h
     | none => s
-  | .entEv => { s with trkEnt := s.trkEnt.start sys, trkEvt := s.trkEvt.start sys }
-  | .bcEv => { s with trkEvt := s.trkEvt.start sys }
+  | .entEv _ _ => { s with trkEnt := s.trkEnt.start sys, trkEvt := s.trkEvt.start sys }
+  | .bcEv _ => { s with trkEvt := s.trkEvt.start sys }
 
 /-- `try_cleanup_data_entity`. -/
 def tryCleanupData (s : St) (d : Nat) : St :=
@@ -229,20 +229,20 @@ def tryCleanupData (s : St) (d : Nat) : St :=
 def cleanupK (s : St) (k : Kind) : St :=
   match k with
   | .plain => s
-  | .sysEv =>
+  | .sysEv _ =>
     let s := { s with trkSys := { s.trkSys with reacting := false } }
     despawn1 s s.trkSys.cur
-  | .entReact => { s with trkEnt := { s.trkEnt with reacting := false } }
-  | .dspReact =>
+  | .entReact _ _ => { s with trkEnt := { s.trkEnt with reacting := false } }
+  | .dspReact _ =>
     let old := s.trkDsp.curHandle
     let s := { s with trkDsp := { s.trkDsp with reacting := false, curHandle := none } }
     match old with
     | some h => dropHandle s h
     | none => s
-  | .entEv =>
+  | .entEv _ _ =>
     let s := { s with trkEnt := { s.trkEnt with reacting := false }, trkEvt := { s.trkEvt with reacting := false } }
     tryCleanupData s s.trkEvt.cur
-  | .bcEv =>
+  | .bcEv _ =>
     let s := { s with trkEvt := { s.trkEvt with reacting := false } }
     tryCleanupData s s.trkEvt.cur
 
@@ -391,5 +391,58 @@ def observe (s : St) (isEwr : Option Nat) : Obs × St :=
       | some wr => [readLocal s wr]
       | none => [] }
   (obs, s')
+
+
+/-- The `RType` every entity-event reaction prepares in the entity reaction tracker (`Event(TypeId::of::<()>())`). -/
+def evUnit : RType := ⟨.ev, 1000⟩
+
+/-- Ghost: did the `start` of a command of kind `k` claim the metadata that this very command prepared? -/
+def claimedOwn (s : St) (k : Kind) : Bool :=
+  match k with
+  | .plain => true
+  | .sysEv d => s.trkSys.cur == d
+  | .entReact src rt => s.trkEnt.curSrc == src && s.trkEnt.curRt == rt
+  | .dspReact src => s.trkDsp.curSrc == src
+  | .entEv target d => s.trkEvt.cur == d && s.trkEnt.curSrc == target && s.trkEnt.curRt == evUnit
+  | .bcEv d => s.trkEvt.cur == d
+
+/-- Ghost: what the readers of a run caused by a command of kind `k` should return: the command's own event in the
+    reader of its kind and type, nothing in every other reader (C03). -/
+def expectObs (s : St) (k : Kind) (isEwr : Option Nat) : Obs :=
+  let tys := List.range numTy
+  let none1 : List (Option Nat) := tys.map (fun _ => none)
+  let base : Obs := { sysEv := none1, sysEv2 := none1, bc := none1, ev := tys.map (fun _ => none), insE := none1,
+                      mutE := none1, remE := none1, dsp := none,
+                      loc := match isEwr with | some _ => [none] | none => [] }
+  let dataOf (d : Nat) (kd : DKind) : Option DataEnt :=
+    match s.data d with
+    | some x => if x.kind = kd ∧ s.alive d then some x else none
+    | none => none
+  let locOf (src : Nat) : List (Option (Nat × Nat)) :=
+    match isEwr with
+    | some wr => [(alookup (s.ewLocal src) wr).map (fun v => (src, v))]
+    | none => []
+  match k with
+  | .plain => base
+  | .sysEv d =>
+    match dataOf d .sys with
+    | some x => { base with sysEv := tys.map (fun ty => if ty = x.ty ∧ !x.taken then some x.pid else none) }
+    | none => base
+  | .bcEv d =>
+    match dataOf d .bc with
+    | some x => { base with bc := tys.map (fun ty => if ty = x.ty then some x.pid else none) }
+    | none => base
+  | .entEv target d =>
+    match dataOf d .ev with
+    | some x => { base with ev := tys.map (fun ty => if ty = x.ty then some (x.target, x.pid) else none), loc := locOf target }
+    | none => { base with loc := locOf target }
+  | .entReact src rt =>
+    let b : Obs := { base with loc := locOf src }
+    match rt.kind with
+    | .ins => { b with insE := tys.map (fun ty => if ty = rt.ty then some src else none) }
+    | .mut => { b with mutE := tys.map (fun ty => if ty = rt.ty then some src else none) }
+    | .rem => { b with remE := tys.map (fun ty => if ty = rt.ty then some src else none) }
+    | .ev => b
+  | .dspReact src => { base with dsp := some src }
 
 end Cobweb
